@@ -74,13 +74,13 @@ def groups(tier, seed):
         add('couplings-square', Classes={'Square'}, MaxLx=3, MaxLy=3, MaxN=9, Queries=ALLQ, MultiMod=47)
         add('couplings-cell', Classes={'Honeycomb', 'Kagome', 'General'}, MaxLx=2, MaxLy=2, MaxN=6, Queries=ALLQ, MultiMod=151,
             PermMults=set())
-        add('couplings-cubic', Classes={'Cubic'}, MaxN=4, MaxShift=0, Queries=ALLQ, MultiMod=401, PermMults=set())
+        add('couplings-cubic', Classes={'Cubic'}, MaxN=2, MaxShift=0, Queries=ALLQ, MultiMod=401, PermMults=set())
         add('multispecies', Classes={'Multi'}, MaxL=3, MaxN=6, Queries=ALLQ - {'multi'}, DxCap=1, PermMults=set())
         add('irregular', Classes={'Irregular'}, MaxL=3, MaxN=6, Queries=ALLQ, DxCap=2, MultiMod=61, IrrMod=211, PermMults=set())
         add('helical', Classes={'Helical'}, MaxN=12, Queries=ALLQ, MultiMod=61)
         # enlarge_mps_unit_cell / with_grouped_sites applied to built lattices of every class, all queries again
         add('derive', Classes={'Chain', 'Ladder', 'Square', 'Honeycomb', 'Multi', 'Irregular', 'Helical'}, MaxL=3, MaxN=6,
-            BcMode='periodic', Queries=ALLQ - {'neighbors'}, DxCap=1, MultiMod=401, IrrMod=61, PermMults=set(),
+            BcMode='periodic', Queries=ALLQ - {'neighbors'}, DxCap=1, MultiMod=401, IrrMod=101, PermMults=set(),
             EnlargeSet={2}, EnlargeVia={'copy', 'segment'}, GroupSet={2, 3})
     else:
         add('orders-1d', Classes=REG1D, MaxL=6, NLegs={3, 4}, MaxN=24, BcMode='periodic', OrderMode='all', PermMults=pm2,
